@@ -1,0 +1,39 @@
+// Verification hooks. Compiled in only with -DLIBFIBER_VERIF; the bodies are
+// supplied by the verification harness, not by libfiber.
+
+#ifndef _FIBER_VERIF_H_
+#define _FIBER_VERIF_H_
+
+#ifdef LIBFIBER_VERIF
+
+#ifdef __cplusplus
+extern "C" {
+#endif
+
+struct fiber;
+struct fiber_manager;
+
+// a spin-wait iteration (cpu_relax)
+extern void verif_spin(void);
+// about to execute a double-word compare-and-swap on 'location'
+extern void verif_dwcas(volatile void* location);
+// a full store-load barrier
+extern void verif_fence(void);
+// fiber life cycle
+extern void verif_fiber_created(struct fiber* f);
+extern void verif_fiber_destroy(struct fiber* f);
+// about to switch from old_fiber to new_fiber on this manager's kernel thread
+extern void verif_switch(struct fiber_manager* manager, struct fiber* old_fiber,
+                         struct fiber* new_fiber);
+// first code executed after a context switch, on the new fiber's stack
+extern void verif_switched(struct fiber_manager* manager);
+// the_fiber was made runnable on 'scheduler'
+extern void verif_scheduled(void* scheduler, struct fiber* the_fiber);
+
+#ifdef __cplusplus
+}
+#endif
+
+#endif  // LIBFIBER_VERIF
+
+#endif  // _FIBER_VERIF_H_
